@@ -1,5 +1,6 @@
 import JjModel.Lemmas.FilesIdentity
 import JjModel.Props.C03
+import JjModel.Lemmas.DiffSre
 /-!
   Arity of the hunks of `merge_inner`; `collect_merged` cannot hit its `assert_eq!`.
 -/
@@ -91,5 +92,32 @@ theorem collectMergedGo_isSome (n : Nat) (hs : List (List Bytes)) (acc : List By
       dsimp only
       rw [if_pos hexp]
       exact ih _ ihh (by right; rw [List.length_zipWith, hexp, hl]; simp)
+
+/-- the `SlicesRespectEquality` hypothesis holds for the line diff of every merge -/
+theorem lineDiffSre_holds (terms : List Bytes) (hne : diffInputs terms ≠ []) : lineDiffSre terms = true := by
+  obtain ⟨d, hd⟩ := C03.build_isSome (diffInputs terms) (.line, .exact) [] hne
+  have hd' : build (diffInputs terms) byLine = some d := hd
+  have hft : forTokenizer (diffInputs terms) .line .exact = some d := by
+    simp only [build, List.foldl_nil, Option.map_eq_some_iff] at hd
+    obtain ⟨d0, h0, rfl⟩ := hd
+    exact h0
+  obtain ⟨e, w⟩ := forTokenizer_wf _ _ _ d hft
+  have hsre := forTokenizer_sre _ _ _ d hft
+  have har := C03.hunks_arity d (by rw [e]; exact w)
+  unfold lineDiffSre
+  rw [hd']
+  simp only [sreb, List.all_eq_true, List.mem_range]
+  intro hk hmem i hi j hj
+  split
+  · rename_i heq
+    simp only [ContentDiff.hunks, List.mem_map] at hmem
+    obtain ⟨hr, hrm, rfl⟩ := hmem
+    have hl := har hr hrm
+    simp only [decide_eq_true_eq]
+    rw [getD_zipWith slice d.inputs hr.ranges i [] ⟨0, 0⟩ [] hi (by rw [hl]; exact hi),
+      getD_zipWith slice d.inputs hr.ranges j [] ⟨0, 0⟩ [] hj (by rw [hl]; exact hj), heq]
+    rw [e] at hi hj heq
+    rw [hsre hr hrm i j hi hj heq]
+  · rfl
 
 end JjModel.Files
